@@ -1,7 +1,7 @@
 ------------------------------- MODULE TextOps -------------------------------
 (* Text as a sequence of one-character strings: the operations pedal applies to captured output. *)
 EXTENDS Integers, Sequences
-IsWS(c) == c \in {" ", "\n", "\t"}
+IsWS(c) == c \in {" ", "\n", "\t", "\r"}       \* (a carriage return is white space for rstrip, not a line break for split)
 RECURSIVE RStrip(_)
 RStrip(s) == IF s = <<>> THEN s ELSE IF IsWS(s[Len(s)]) THEN RStrip(SubSeq(s, 1, Len(s) - 1)) ELSE s
 RECURSIVE Split(_)
